@@ -286,6 +286,10 @@ func propVerifyRaw(t *rapid.T) {
 		return map[string]any{"Q": c.q.String(), "digest": stat.Hex(c.digest), "r": r.Text(16), "s": s.Text(16), "built": c.how, "expect": acc}
 	})
 	pk := lib.PubKey(c.q)
+	// the verifier's key object may have been used by other parts of the API before (keys are immutable)
+	if use, msg := lib.UsePublicKeyElsewhere(t, pk, c.q, "pk"); msg != "" {
+		t.Fatalf("public key %v, use %s: %s", c.q, use, msg)
+	}
 	lr, ls := lib.Sc(r), lib.Sc(s)
 	var got bool
 	adj, unchanged := gen.Adjacent(c.digest)
@@ -486,6 +490,9 @@ func propVerifyOpts(t *rapid.T) {
 		return map[string]any{"Q": c.q.String(), "digest": stat.Hex(c.digest), "sig": stat.Hex(sig), "opts": optDesc, "built": c.how, "expect": acc}
 	})
 	pk := lib.PubKey(c.q)
+	if use, msg := lib.UsePublicKeyElsewhere(t, pk, c.q, "pk"); msg != "" {
+		t.Fatalf("public key %v, use %s: %s", c.q, use, msg)
+	}
 	var got bool
 	adj, unchanged := gen.Adjacent(c.digest, sig) // arguments sliced out of one caller buffer
 	if p := lib.Catch(func() { got = pk.Verify(adj[0], adj[1], opts) }); p != nil {
